@@ -72,6 +72,15 @@ def shard(col, module, pop_bound, limit, with_assertions):
         pipe = pipeline.Pipe(module, scratch)
         props = pipe.sut.props
         tests, _ = pipe.population(bound=pop_bound, limit=limit)
+        # post-processed shapes as well: remove_unused_variables() turns an unused `var = f(...)` into a
+        # bare `f(...)`, i.e. a statement that binds nothing (and may still raise)
+        unbound = []
+        for t in tests:
+            u = t.clone()
+            u.remove_unused_variables()
+            if u.to_code() != t.to_code():
+                unbound.append(u)
+        tests = tests + unbound
         if with_assertions:
             suite = pipe.suite(tests)
             pipe.generate_assertions(suite, "SIMPLE")
